@@ -547,36 +547,46 @@ func (e *Engine) blit(st *State, et types.Type, dref, doff, sref, soff, n *Term)
 	}
 	pi := &PtrInfo{Ref: dref, Root: arrRoot(et), Path: []Step{{Idx: BVConst(0, 64)}}, Elem: et}
 	type cell struct {
-		key string
-		s   *Sort
+		key  string
+		s    *Sort
+		rest []*Term // indices below the element (arrays inside the element), concrete
 	}
 	var cells []cell
 	st.walk(pi, et, func(key string, idx []*Term, s *Sort) {
-		if len(idx) != 2 {
-			panic(unsupported("copy of elements containing arrays"))
+		if len(idx) < 2 {
+			panic(unsupported("copy of elements: unexpected cell shape"))
 		}
-		cells = append(cells, cell{key, s})
+		cells = append(cells, cell{key, s, append([]*Term(nil), idx[2:]...)})
 	})
 	if n.Op == OConst && n.Val <= 16 {
 		for _, c := range cells {
 			vals := make([]*Term, n.Val)
 			for i := uint64(0); i < n.Val; i++ {
-				vals[i] = st.loadLeaf(c.key, []*Term{sref, Add(soff, BVConst(i, 64))}, c.s)
+				vals[i] = st.loadLeaf(c.key, append([]*Term{sref, Add(soff, BVConst(i, 64))}, c.rest...), c.s)
 			}
 			for i := uint64(0); i < n.Val; i++ {
-				st.storeLeaf(c.key, []*Term{dref, Add(doff, BVConst(i, 64))}, vals[i])
+				st.storeLeaf(c.key, append([]*Term{dref, Add(doff, BVConst(i, 64))}, c.rest...), vals[i])
 			}
 		}
 		return
 	}
+	done := map[string]bool{}
 	for _, c := range cells {
-		old := st.cellArr(c.key, 2, c.s)
+		if done[c.key] {
+			continue // one quantified copy per cell array covers every inner index
+		}
+		done[c.key] = true
+		m := 2 + len(c.rest)
+		old := st.cellArr(c.key, m, c.s)
 		nw := FreshVar("Hc|"+c.key, old.S)
-		j := Bound("j", BV(128))
-		jr := Extract(127, 64, j)
-		ji := Extract(63, 0, j)
+		j := Bound("j", BV(64*m))
+		jr := Extract(64*m-1, 64*m-64, j)
+		ji := Extract(64*m-65, 64*m-128, j)
 		inDst := And(Eq(jr, dref), Ule(doff, ji), Ult(Sub(ji, doff), n))
 		srcIdx := Concat(sref, Add(soff, Sub(ji, doff)))
+		if m > 2 {
+			srcIdx = Concat(srcIdx, Extract(64*m-129, 0, j))
+		}
 		body := Eq(Select(nw, j), Ite(inDst, Select(old, srcIdx), Select(old, j)))
 		st.assume(Forall([]*Term{j}, body))
 		st.mem[c.key] = nw
